@@ -640,3 +640,22 @@ Definition type_in_vocabb (st : state) : bool :=
   match st_type st with None => true | Some s => existsb (lz_eqb s) vocabulary end.
 Definition in_domainb (st : state) (genby date : str) : bool :=
   wf_stateb st && meta_okb st && textb genby && textb date.
+
+(* ------------------------------------------------------------------ writing a table that was loaded *)
+(* The constructor documents group metadata as  key -> (data type, payload);  from_hdf5 leaves only
+   the payload text per key (table.py:4281-4283).  to_hdf5 (table.py:4760-4765) writes a pair as
+   (data type, payload) and a bare text as the payload with the empty data type: the data type
+   itself does not survive a load (the property asks for the payload only). *)
+Inductive gval := GPair (dt v : str) | GText (s : str).
+Definition unpack_gval (g : gval) : result (str * str) :=
+  match g with
+  | GPair dt v => ROk (dt, v)
+  | GText s => ROk ([], s)
+  end.
+Definition with_gmd (st : state) (og sg : list (str * (str * str))) : state :=
+  mkSt (st_oids st) (st_sids st) (st_fmt st) (st_cs st) (st_omd st) (st_smd st) (st_type st) (st_id st) og sg.
+Definition unpack_gmd (l : list (str * gval)) : result (list (str * (str * str))) :=
+  mapM (fun kv => v <- unpack_gval (snd kv) ;; ROk (fst kv, v)) l.
+(* to_hdf5 of a table whose group metadata values are whatever its history left *)
+Definition to_hdf5_raw (st : state) (og sg : list (str * gval)) (genby date : str) : result h5 :=
+  og' <- unpack_gmd og ;; sg' <- unpack_gmd sg ;; to_hdf5 (with_gmd st og' sg') genby date.
